@@ -176,6 +176,53 @@ func runC15(c *Ctx) {
 		}
 	}
 
+	// ---- M8: several conditions on one property with values that are the same up to case - or nearly: letters that Unicode
+	// folds together but lower-casing does not (final sigma, long s, micro sign, Kelvin sign, title-case digraphs) - combined
+	// with AND / OR, also nested: the combination is the conjunction / disjunction of what each condition gives alone
+	{
+		families := [][]string{{"Νίκος", "ΝΊΚΟΣ", "νίκοσ", "νίκος"}, {"ſ", "s", "S"}, {"µ", "μ", "Μ"}, {"K", "k", "K"}, {"ǅ", "ǆ", "Ǆ"}, {"bob", "BOB", "Bob"}, {"straße", "STRASSE", "strasse"}}
+		for i := 0; i < c.N(1500, 40000); i++ {
+			fam := Pick(r, families)
+			prop := Pick(r, []string{"name", "nick", "f0"})
+			op := Pick(r, []string{"=", "=", "!=", "~"})
+			if op == "~" {
+				prop = "name"
+			}
+			k := r.Range(2, 3)
+			var conds []string
+			for j := 0; j < k; j++ {
+				conds = append(conds, fmt.Sprintf("%s %s %q", prop, op, Pick(r, fam)))
+			}
+			q := &stubQueryable{vals: map[string][]any{prop: {Pick(r, fam)}}}
+			join := Pick(r, []string{" OR ", " AND "})
+			text := strings.Join(conds, join)
+			if k == 3 && r.Bool() {
+				text = "(" + conds[0] + join + conds[1] + ")" + join + conds[2]
+			}
+			want := join == " AND "
+			allOK := true
+			for _, cd := range conds {
+				one, ok := evalQ(env, cd, q)
+				allOK = allOK && ok
+				if join == " AND " {
+					want = want && one
+				} else {
+					want = want || one
+				}
+			}
+			got, ok := evalQ(env, text, q)
+			if !ok || !allOK {
+				continue
+			}
+			c.Count("check:M8-same-property")
+			c.Eval(fmt.Sprintf("M8|%s|%s|%s|%v", prop, op, strings.TrimSpace(join), got))
+			if got != want {
+				c.Fail("monitor", "M8-same-property", "bool-composition:same-property", "conditions on one property combined with AND/OR do not give the conjunction/disjunction of what each gives alone",
+					map[string]any{"query": text, "contact_value": q.vals[prop][0], "got": got, "want": want})
+			}
+		}
+	}
+
 	// ---- M5: totality over every admitted (property, operator) pair -----------------------
 	{
 		fs := append([]assets.Field{}, fields...)
